@@ -231,10 +231,10 @@ pub fn replay_one(c: &Value, idx: usize) -> (crate::erralg::Outcome, String, boo
 // ---------------------------------------------------------------------------------------------------
 // impl -> spec: random declarations longer than the exhaustive bounds, recorded for Trace_DeriveOptions.tla
 
-const FIELD_ALPHA: [(&str, &str); 23] = [
+const FIELD_ALPHA: [(&str, &str); 25] = [
     ("rename", "str"), ("rename", "word"), ("default", "word"), ("default", "path"), ("default", "words"), ("with", "path"), ("with", "closure"), ("with", "str"),
     ("skip", "word"), ("skip", "false"), ("skip", "str"), ("map", "str"), ("and_then", "path"), ("map", "closure"), ("multiple", "word"), ("multiple", "false"),
-    ("flatten", "word"), ("flatten", "true"), ("bogus", "word"), ("@bare", ""), ("@nv", ""), ("@lit", ""), ("@junk", ""),
+    ("flatten", "word"), ("flatten", "true"), ("flatten", "empty"), ("skip", "empty"), ("bogus", "word"), ("@bare", ""), ("@nv", ""), ("@lit", ""), ("@junk", ""),
 ];
 const VARIANT_ALPHA: [(&str, &str); 12] = [
     ("rename", "str"), ("rename", "true"), ("skip", "word"), ("skip", "false"), ("word", "word"), ("word", "false"), ("word", "str"), ("bogus", "str"), ("@bare", ""), ("@nv", ""), ("@lit", ""), ("@junk", ""),
